@@ -17,22 +17,22 @@ CLAIMED = {
     "C01": dict(
         text="Bounded model checking of GetMessage, FetchNextMessageFrame and HandleMessages on fully symbolic buffers/streams "
              "(quick: buffers <= 14 B, one stream step from any reachable push-back state over <= 10 B, whole streams <= 7 B; thorough 40/16/10): "
-             "every typed message without error is exactly one frame per an independent specification (preamble, reserved bits, non-zero length == payload size, CRC-24Q over the exact linear CRC model) and its type is the first 12 payload bits.",
+             "every typed message without error is exactly one frame per an independent specification (preamble, reserved bits, non-zero length == payload size, CRC-24Q over the exact linear CRC model) and its type is the first 12 payload bits. The same holds for an arbitrary buffer handled after a valid frame or arbitrary bytes on the same handler.",
         note="exact GF(2)-linear CRC-24Q model validated per run against the dependency's Hash interpreted from source; streams/buffers longer than the bound are outside the claim (the one-step harness is inductive over calls).",
         ref="DESIGN.md section 6, C01"),
     "C02": dict(
         text="For all streams within the bound the solver shows the delivered raw bytes concatenate to the input, no message is empty, "
              "the output is closed exactly once (a missing close is a deadlock of the draining harness), and one FetchNextMessageFrame step from "
-             "any reachable push-back state delivers a non-empty prefix and leaves exactly the remainder (inductive step); with a producer goroutine, the handler goroutine and a draining consumer, channel capacities 0/1/2 and the lazy, round-robin and one-preemption schedules the delivered bytes are still exactly the input.",
+             "any reachable push-back state delivers a non-empty prefix and leaves exactly the remainder (inductive step); with a producer goroutine, the handler goroutine and a draining consumer, channel capacities 0/1/2 and the lazy, round-robin and one-preemption schedules the delivered bytes are still exactly the input. Also on C12's corrupted-segment family and on runs of 1029..8193 bytes of other data before a frame.",
         note="as C01; schedules: switches at synchronisation operations only, at most one preemption.",
         ref="DESIGN.md section 6, C02"),
     "C03": dict(
-        text="Segment shapes enumerated (<= 3 segments of junk 1..3 B / frames with payload 1,2,3,5 B, truncated tail at every cut; long frames 255/256/1023 B; thorough: payload 1,2,3,4,5,8,12, junk 1,2,3,8, 257/1022), contents symbolic "
-             "(all 4096 types, every CRC value, 0xD3 inside payload/CRC): exactly one message per segment, in order, with exactly its bytes and type.",
+        text="Segment shapes enumerated (<= 3 segments of junk 1..3 B / frames with payload 1,2,3,5 B, truncated tail at every cut; long frames 255/256/1023 B; thorough: payload 1,2,3,5,8, junk 1,2,3,8, 257/1022), contents symbolic "
+             "(all 4096 types, every CRC value, 0xD3 inside payload/CRC): exactly one message per segment, in order, with exactly its bytes and type. After a run of 1029..8193 bytes of other data (however it is cut) the frame is recognised exactly once.",
         note="shapes outside the enumerated family are outside the claim; CRC model as C01.",
         ref="DESIGN.md section 6, C03"),
     "C04": dict(
-        text="A reference encoder written from the standard's field tables builds MSM4/MSM7 frames from symbolic field values (every field over its full width, multiple-message flag symbolic); the real decoder must accept the frame and reproduce every header field, mask, satellite cell and signal cell, attached to the right satellite and signal id, for every cell mask of eight small shapes at three placements, 0..10 zero padding bytes (thorough 0..24), all 14 message types and wide shapes up to the 64-cell limit; the mask expansion on its own for eight symbolic mask bits in a window at 3 (thorough: every) position of the satellite and of the signal mask.",
+        text="A reference encoder written from the standard's field tables builds MSM4/MSM7 frames from symbolic field values (every field over its full width, multiple-message flag symbolic); the real decoder must accept the frame and reproduce every header field, mask, satellite cell and signal cell, attached to the right satellite and signal id, for every cell mask of eight small shapes at three placements, 0..10 zero padding bytes (thorough 0..24), all 14 message types and wide shapes up to the 64-cell limit; the mask expansion on its own for eight symbolic mask bits in a window at 3 (thorough: every) position of the satellite and of the signal mask. A subject message decoded after a predecessor message (eleven shape pairs sharing cell-mask value, bit count or shape) decodes as in a fresh state.",
         note="mask SHAPES are enumerated (concrete) because the mask-expansion loops fork per bit; shapes outside the family are outside the claim; CRC model as C01.",
         ref="DESIGN.md section 6, C04"),
     "C05": dict(
@@ -52,16 +52,16 @@ CLAIMED = {
     "C07": dict(
         text="Every Go safety condition (index, slice bounds, nil dereference, division, type assertion, channel misuse), every deadlock and every unwinding-limit hit is an obligation on the "
              "framing paths over arbitrary buffers/streams (GetMessage <= 14 B, stream step <= 10 B, stream <= 7 B; thorough 24/16/10) followed by String() at both log levels, and on the "
-             "decoder and display paths over CRC-valid 1005/1006/MSM4/MSM7 frames with arbitrary payload bits at every payload length (mask shapes concrete incl. shapes announcing more than fits; cell mask and all other bits symbolic), and over every 30-bit timestamp of every MSM type.",
+             "decoder and display paths over CRC-valid 1005/1006/MSM4/MSM7 frames with arbitrary payload bits at every payload length (mask shapes concrete incl. shapes announcing more than fits; cell mask and all other bits symbolic), and over every 30-bit timestamp of every MSM type. Sequences of two well-formed MSM frames of different shapes through one process state are decoded and displayed without a crash.",
         note="fmt/hex/time internals are stubs that never panic; inputs beyond the bounds are outside the claim.",
         ref="DESIGN.md section 6, C07"),
     "C08": dict(
         text="Integer kernels (aggregate range / phase range / rate, MSM4 and MSM7, invalid markers, MSM4-vs-MSM7 agreement) decided exactly over the whole field domain as bit-vector queries; "
-             "the floating-point tails are shown identical, term for term, to the standard's formula applied to the same exact integer; the wavelength table for all four constellations and all 2^64 signal ids.",
+             "the floating-point tails are shown identical, term for term, to the standard's formula applied to the same exact integer; the wavelength table for all four constellations and all 2^64 signal ids. The wavelength of a signal is the same after a lookup of any other (constellation, signal id).",
         note="'to within floating-point rounding' and the %.3f rendering are argued from the exactness of the integer (< 2^41), not solver-checked; FP obligations are decided by syntactic identity or refuted by evaluation under solver models.",
         ref="DESIGN.md section 6, C08"),
     "C09": dict(
-        text="The real reader-to-sinks pipeline (file handler goroutine, framing goroutine, fan-out loop) runs under the engine's scheduler with a fast, a nil and a slow consumer, three channel-capacity settings and three input chunkings, on four input shapes with symbolic contents: under the lazy, the round-robin and every one-preemption schedule each consumer receives exactly the sequence sequential framing of the same bytes produces, the call returns 0, all helper goroutines finish, nothing is closed twice or sent on a closed channel, nothing deadlocks.",
+        text="The real reader-to-sinks pipeline (file handler goroutine, framing goroutine, fan-out loop) runs under the engine's scheduler with a fast, a nil and a slow consumer, three channel-capacity settings and three input chunkings (one of them reporting io.EOF together with the last bytes), on five input shapes with symbolic contents (one longer than a kilobyte with independently built expectations): under the lazy, the round-robin and every one-preemption schedule each consumer receives exactly the sequence sequential framing of the same bytes produces, the call returns 0, all helper goroutines finish, nothing is closed twice or sent on a closed channel, nothing deadlocks.",
         note="interleavings at synchronisation granularity under sequential consistency: data races are outside the claim; schedules with more than one preemption are outside the bound.",
         ref="DESIGN.md sections 5 and 6, C09", technique="bounded symbolic execution of the real Go code (go/ssa interpreter with symbolic data, encoding regenerated from /repo on every run) extended with a cooperative scheduler: goroutine interleavings are explicit choice points explored under a stated preemption bound, data stays symbolic and every equality is an SMT obligation (z3 5.1.0); counterexamples replayed natively with a slow writer"),
     "C10": dict(
@@ -74,27 +74,27 @@ CLAIMED = {
         ref="DESIGN.md sections 5 and 6, C11", technique="bounded symbolic execution of the real Go code (go/ssa interpreter with symbolic data, encoding regenerated from /repo on every run) extended with a cooperative scheduler: goroutine interleavings are explicit choice points explored under a stated preemption bound, data stays symbolic and every equality is an SMT obligation (z3 5.1.0); counterexamples replayed natively with a slow writer"),
     "C12": dict(
         text="C03's segment family with one victim frame whose payload+CRC bytes are XOR-ed with a symbolic difference assumed (through the exact CRC model) to break the CRC: "
-             "the victim is delivered as one non-RTCM message with exactly its bytes and every other segment exactly as before.",
+             "the victim is delivered as one non-RTCM message with exactly its bytes and every other segment exactly as before. An MSM neighbour after a corrupted MSM frame (symbolic timestamp) is reported with the time and start of week it has without the victim.",
         note="as C03.",
         ref="DESIGN.md section 6, C12"),
     "C13": dict(
-        text="The real Handle runs on a real bufio.Reader (interpreted from source, so the reader's buffering is explored) over a scripted reader whose every call is, nondeterministically, a chunk of symbolic bytes (possibly after a pause longer than the tolerance), nothing, EOF, an i/o timeout or another error, with the real framing goroutine running under the engine's scheduler: what reaches the message channel is byte for byte what the script supplied, no message is empty, the output is closed, another read error stops the run at once, zero tolerance stops at the first interruption, and with a tolerance a single interruption never ends the run.",
+        text="The real Handle runs on a real bufio.Reader (interpreted from source, so the reader's buffering is explored) over a scripted reader whose every call is, nondeterministically, a chunk of symbolic bytes (possibly after a pause longer than the tolerance), nothing, EOF, an i/o timeout or another error, with the real framing goroutine running under the engine's scheduler: what reaches the message channel is byte for byte what the script supplied, no message is empty, the output is closed, another read error stops the run at once, zero tolerance stops at the first interruption, and with a tolerance a single interruption never ends the run; a source that stays silent for good (io.EOF and freshly made timeout errors alternating) makes the handler give up.",
         note="clock: time advances by sleeps and declared pauses plus a bounded jitter (stated bound); schedules: lazy and round-robin switching at synchronisation operations; 3 reader calls.",
         ref="DESIGN.md section 6, C13"),
     "C15": dict(
-        text="Self-composition over symbolic frames of eight kinds at both log levels: the type, raw bytes, error text and readable text (MSM time lines excluded) produced by a fresh handler equal those produced by a handler that has already processed other frames and the same frame; displaying a message three times gives identical text and never changes its raw bytes or error text; displaying one by-value copy of a delivered message leaves the other copy's fields and raw bytes untouched and both display the same.",
+        text="Self-composition over symbolic frames of ten kinds at both log levels: the type, raw bytes, error text and readable text (MSM time lines excluded) produced by a fresh handler equal those produced by a handler that has already processed other frames and the same frame; displaying a message three times gives identical text and never changes its raw bytes or error text; displaying one by-value copy of a delivered message leaves the other copy's fields and raw bytes untouched and both display the same. Two goroutines with a handler each decode and display the same frame (the ten kinds and a frame of symbolic type) under an isolation monitor: no memory cell or map of the code under test written by one is used by the other; both see what a single handler shows.",
         note="the histories half of the quantifier; the concurrent half (parallel handlers, race detector) is outside what an interleaving model at synchronisation granularity can see and is stated as outside the claim.",
         ref="DESIGN.md section 6, C15"),
     "C16": dict(
-        text="The real start(cfg) of rtcmlogger runs with its copying loop on a scripted standard input (0..5 symbolic bytes in reads of 1..3 bytes) and its recorder goroutine on the daily logger, under the lazy, round-robin and one-preemption schedules: standard output is identical to the input, and at the instant start returns - where the program exits - the day's record already holds exactly the input; later overwrites of the read buffer cannot change a block already handed to the recorder (checked through aliasing in the symbolic heap).",
+        text="The real start(cfg) of rtcmlogger runs with its copying loop on a scripted standard input (0..5 symbolic bytes in reads of 1..3 bytes) and its recorder goroutine on the daily logger, under the lazy, round-robin and one-preemption schedules: standard output is identical to the input, and at the instant start returns - where the program exits - the day's record already holds exactly the input; later overwrites of the read buffer cannot change a block already handed to the recorder (checked through aliasing in the symbolic heap). With a standard output whose every write fails the record is complete all the same.",
         note="found and natively confirmed the lost last block on the original tree (fixed by 575b6bc; the real binary lost it in 100 of 100 runs on a two-block input); blocks longer than 3 bytes and read errors are outside the bound.",
         ref="DESIGN.md sections 5 and 6, C16", technique=TECH2),
     "C19": dict(
-        text="Relay: the real handleMessages (both relay loops, the real RTCM parser and queue goroutines) on scripted connections with chunks of symbolic bytes, under the lazy, round-robin and one-preemption schedules: the server receives exactly the client's bytes in order whatever they are, the client receives the server's bytes unaltered, the parser never stops the relay (no panic, no deadlock, the call returns), and the queued messages are a prefix of the relayed client stream. Report: the real Status() over symbolic traffic: no traffic byte can add a '<' or '>' to the page (the page for the same traffic shape with harmless bytes has the same number of each).",
+        text="Relay: the real handleMessages (both relay loops, the real RTCM parser and queue goroutines) on scripted connections with chunks of symbolic bytes, under the lazy, round-robin and one-preemption schedules: the server receives exactly the client's bytes in order whatever they are, the client receives the server's bytes unaltered, the parser never stops the relay (no panic, no deadlock, the call returns), a client that reads late (blocking writes) does not hold up the other direction, reads that fill the relay's 2048-byte buffer lose nothing, and the queued messages are a prefix of the relayed client stream. Report: the real Status() over symbolic traffic (client and server buffers, non-RTCM data, a listed message, a listed message with an error text): no traffic byte can add a '<' or '>' to the page (the page for the same traffic shape with harmless bytes has the same number of each).",
         note="found and natively confirmed the unescaped message list on the original tree (fixed by 8ec93f5); TCP/TLS/HTTP are outside the claim; that parsing cannot crash on any data is C07.",
         ref="DESIGN.md section 6, C19", technique=TECH2),
     "C18": dict(
-        text="Bounded histories (capacities 1..4, thorough 1..8; up to capacity+3 additions; symbolic messages; both map iteration orders) give exactly the last min(N,n) messages in order and never more than N; one addition from an arbitrary valid state with a symbolic next index keeps the invariant and shifts the contents by one (covers long runs far beyond the capacity); a lock-set monitor shows every access to the queue state inside Add/GetMessages holds the right lock and the lock is free on return; one adder and one reader on a full queue under the lazy, round-robin and one-preemption (thorough: two) schedules: every snapshot is a contiguous run consistent with real time.",
+        text="Bounded histories (capacities 1..4, thorough 1..8; up to capacity+3 additions; symbolic messages; both map iteration orders) give exactly the last min(N,n) messages in order and never more than N; one addition from an arbitrary valid state with a symbolic next index keeps the invariant and shifts the contents by one (covers long runs far beyond the capacity; where the step leaves the invariant the queue is followed and judged by its snapshots only); a lock-set monitor shows every access to the queue state inside Add/GetMessages holds the right lock and the lock is free on return; one adder and one reader on a full queue under the lazy, round-robin and one-preemption (thorough: two) schedules: every snapshot is a contiguous run consistent with real time.",
         note="the concurrent clause is covered through the lock discipline (sequential consistency under the lock), confirmed natively by the race detector on a stress run; index values >= 2^62 are outside the claim.",
         ref="DESIGN.md section 6, C18"),
     "C14": dict(
